@@ -191,9 +191,12 @@ structure LockOp where
 def parseLockOp (ts : List String) : Option LockOp :=
   match ts with
   | ["lockfacts", t] => some { typ := t }
+  -- `connrace n`: concurrent Connect/Close with the default dialer; outcome "ok" (the race detector is the observer)
+  | ["connrace", _] => some { typ := "connrace" }
   | _ => none
 
 def LockOp.judge (prop : String) (op : LockOp) (out : String) : Expect :=
+  if op.typ == "connrace" then .pred (out == "ok") "concurrent Connect / Close must neither panic nor fail to return" else
   if prop == "C14" then
     let (ok, why) := lockVerdict op.typ out
     .pred ok ("lock discipline (hypothesis of the model): " ++ why)
